@@ -1083,6 +1083,21 @@ pub fn c11(ix: &Index) -> Vec<Viol> {
             }
         }
     }
+    // the span id in a context identifies the span it was extracted from, whether or not its
+    // trace is sampled (downstream services hang their spans under it): never zero, never shared
+    // by two spans
+    let mut seen: HashMap<u64, usize> = HashMap::new();
+    for (i, s) in h.spans.iter().enumerate() {
+        if s.noop {
+            continue;
+        }
+        let Some(id) = s.api_id else { continue };
+        if id == 0 {
+            out.push(v("C11", "from_span:span-id-zero", format!("from_span(#{} {:?}) carries span id 0 ({})", i, s.how, if s.items.iter().any(|x| x.sampled) { "sampled" } else { "unsampled" })));
+        } else if let Some(j) = seen.insert(id, i) {
+            out.push(v("C11", "from_span:span-id-shared", format!("from_span(#{}) and from_span(#{}) carry the same span id {:#x}", j, i, id)));
+        }
+    }
     // remote children: same trace, parent = the extracted span
     for (si, s) in h.spans.iter().enumerate() {
         if !(s.how == "remote_root" || s.how == "remote_root_tp") || s.noop {
@@ -2178,17 +2193,22 @@ pub fn c09(ix: &Index) -> Vec<Viol> {
         }
     }
     // ring of every vthread, learned from its own pushes
-    let mut ring_of: HashMap<usize, usize> = HashMap::new();
+    // (a ring is identified by the address of its buffer; the allocator may hand the address of
+    // a removed ring to the ring of a thread born later, so an address stands for one thread only
+    // from that thread's first push until the first push of the next thread that got it)
+    let mut ring_of: HashMap<usize, (usize, T)> = HashMap::new();
     for e in &h.hooks {
         if let (HookKind::BeforePush { ring, .. }, Some(vt)) = (&e.kind, e.vt) {
-            ring_of.entry(vt).or_insert(*ring);
+            ring_of.entry(vt).or_insert((*ring, e.t));
         }
     }
     for (vt, seq) in &issued {
-        let Some(ring) = ring_of.get(vt) else { continue };
+        let Some((ring, first)) = ring_of.get(vt) else { continue };
+        let until = ring_of.iter().filter(|(v2, (r2, t2))| *v2 != vt && r2 == ring && t2 > first).map(|(_, (_, t2))| *t2).min().unwrap_or(T::MAX);
         let received: Vec<(&'static str, usize)> = h
             .hooks
             .iter()
+            .filter(|e| e.t >= *first && e.t < until)
             .filter_map(|e| match &e.kind {
                 HookKind::Received { kind, ids, ring: r } if r == ring && (*kind == "commit" || *kind == "drop") && ids[0] != usize::MAX => Some((*kind, ids[0])),
                 _ => None,
@@ -2378,6 +2398,37 @@ pub fn c13(ix: &Index, prop: &'static str, sched: bool) -> Vec<Viol> {
                     }
                 } else if sp.finish_t.is_some() && !h.cancelable {
                     out.push(v(prop, "span-never-delivered", format!("adapter#{}: span {:?} finished at {:?} but was never delivered", ai, sp.name, sp.finish_t)));
+                }
+            }
+            // dropped before completion: the span covers the inner object until that object is
+            // gone, so a span the inner object held (and finished in its destructor) ends no
+            // later than the adapter's span (decidable when both records were converted in one
+            // cycle, i.e. with one clock anchor)
+            if a.done_t.is_none() && a.dropped_t.is_some() && !sp.noop {
+                if let Some(rs) = ix.by_name.get(sp.name.as_str()) {
+                    for ci in &a.held_finished {
+                        let Some(crs) = ix.by_name.get(h.spans[*ci].name.as_str()) else { continue };
+                        for (bi, r) in rs {
+                            for (cbi, c) in crs.iter().filter(|(cbi, c)| cbi == bi && c.trace_id == r.trace_id) {
+                                let _ = cbi;
+                                let root_end = r.begin_time_unix_ns + r.duration_ns;
+                                let child_end = c.begin_time_unix_ns + c.duration_ns;
+                                if child_end > root_end + 5 {
+                                    out.push(v(
+                                        prop,
+                                        "span-ended-before-inner-dropped",
+                                        format!(
+                                            "adapter#{} dropped before completion: span {:?} ended {} ns before span {:?}, which the inner object held and finished in its destructor",
+                                            ai,
+                                            sp.name,
+                                            child_end - root_end,
+                                            c.name
+                                        ),
+                                    ));
+                                }
+                            }
+                        }
+                    }
                 }
             }
             // everything recorded during the final call belongs to the delivered trace
